@@ -85,7 +85,8 @@ Proof.
 Qed.
 Print Assumptions C14_repeated_stepper.
 
-(* rollout, repeat (with and without auxiliary input) and the two wrapper steppers are re-translated from the source on every run
+(* rollout, repeat (with and without auxiliary input), stack_sub_trajectories (on the list of leaves of the trajectory pytree) and the two
+   wrapper steppers are re-translated from the source on every run
    (harness/translate/utilsfn.py -> Gen/UtilsGen.v: statement-by-statement into the option monad, fail-closed) and equal the
    hand-written model for every state type, step function, n, flag value and auxiliary argument; without aux nothing is rejected *)
 From EXV Require Import Base.Scalar Gen.UtilsGen Tie.UtilsTie.
@@ -94,13 +95,15 @@ Theorem C14_code_utilities_are_model_utilities : forall (A X : Type) (f : A -> A
   gen_rollout f n include_init constant_aux u0 = Some (rollout f n include_init u0)
   /\ gen_repeat f n constant_aux u0 = Some (repeat_fn f n u0)
   /\ gen_rollout_aux g n include_init constant_aux u0 a = rollout_aux g n include_init constant_aux u0 a
-  /\ gen_repeat_aux g n constant_aux u0 a = repeat_aux g n constant_aux u0 a.
+  /\ gen_repeat_aux g n constant_aux u0 a = repeat_aux g n constant_aux u0 a
+  /\ (forall (leaves : list (list A)) (sub_len : nat), gen_stack_sub_trajectories leaves sub_len = stack_sub_tree leaves sub_len).
 Proof.
   intros A X f g n include_init constant_aux u0 a. repeat split.
   - apply rollout_tie.
   - apply repeat_tie.
   - apply rollout_aux_tie.
   - apply repeat_aux_tie.
+  - apply stack_sub_tie.
 Qed.
 Print Assumptions C14_code_utilities_are_model_utilities.
 
